@@ -134,6 +134,15 @@ CHECKS = {
              "unrecorded components of a block's first Einsum (237e9e7).",
         design="4/C13",
         note="Trusted base: the block predicate of vf/checks/c13.py recomputed from the specification value; Hypothesis."),
+    "C14": dict(
+        technique="property-based testing (Hypothesis): generated cascades with constructed multi-configuration architectures (instance counts, frequencies, bandwidths), executed with stand-in models returning distinct primes as exact Fractions; oracle = independent re-computation of every component time and of the sum-of-max roll-up, compared as functions under perturbation of each component time",
+        text="Generated-input search over cascades of 1-4 Einsums on two constructed hardware configurations (own clocks, bandwidths and "
+             "instance counts NAME[0..N]) and the shipped accelerator specifications: the dump is executed exactly (Fractions over distinct "
+             "primes); each component time must be count/(rate x instances) with the architecture read independently, and the emitted "
+             "metrics[\"time\"] expression must equal the sum over blocks of the bottleneck component as a function - every timed entry "
+             "is in turn made dominant, so a missing, duplicated or misplaced entry is seen even when it is not the bottleneck.",
+        design="4/C14",
+        note="Trusted base: vf/archread.py, the per-class count rules in vf/checks/c14.py (taken from the property statement), the stand-ins of vf/standins.py, Hypothesis."),
 }
 
 NOT_APPLICABLE = {}
